@@ -4,7 +4,10 @@ Pipeline (DESIGN.md 2.2 / 7-C10, decisions in notes of tools/dl_run.py):
   prove    coq/props/Properties_C10.v: for IDL and RDL, over ANY history of the theory's operations (wf_run), the distance
            matrix is the shortest-path closure of exactly the processed literals (both directions), conflict <-> negative
            cycle, every conflict clause / lemma is DL-valid with assigned literals, explanation walks terminate, a pop gives
-           back exactly the state of the push. Theorems about the hand-written executable model coq/smt/Dl.v.
+           back exactly the state of the push; satisfiability direction (proofs/DlModel_Proofs.v): without a pending
+           conflict the asserted constraints have a model over Z resp. Q x Q, every finite distance is attained by a model,
+           every infinite one is exceeded by models, and with a drained queue the model satisfies every assigned constraint
+           literal. Theorems about the hand-written executable model coq/smt/Dl.v.
   tie      exact differential: harness/h_dl.cpp (idl_theory / rdl_theory compiled from /repo's current sources) and the
            extracted model run the same generated histories; after EVERY command the result, the hook events (lemmas,
            conflicts, clauses) and the full private state (matrices, predecessors, dist_constr, undo layers, assignments,
